@@ -81,7 +81,7 @@ def main(argv):
         from . import equiv
         equiv.run_all(ctx, prop)
         try:
-            extract.prune_cache([extract.tree_hash(extract.repo_root())], max_keep=400)
+            extract.prune_cache([extract.tree_hash(extract.repo_root())], max_keep=1500)
         except Exception:
             pass
     return framework.finish(ctx, mod.EXPLANATION, mod.UNDECIDED, seed)
